@@ -397,9 +397,9 @@ def gen_section(rng, macros):
                 a, b = rng.sample(addr[d], 2)
                 if a[2] == b[2]:
                     continue
-                s.edges[d].append((a[2], b[2]))
-                ls.append('%s %s%s' % (ref(d, a[0], a[1]), ref(d, b[0], b[1]),
-                                       rng.choice(['', '', ' {"order": 2}', ' {"kind": "x", "w": [1, 2]}', ' {"kind": null}'])))
+                eattr = rng.choice([None, None, {'order': 2}, {'kind': 'x', 'w': [1, 2]}, {'kind': None}])
+                s.edges[d].append((a[2], b[2], eattr or {}))
+                ls.append('%s %s%s' % (ref(d, a[0], a[1]), ref(d, b[0], b[1]), (' ' + json.dumps(eattr)) if eattr else ''))
             if ls:
                 s.subs.append((d + ' edges', ls))
     # mapping lines
@@ -695,15 +695,18 @@ def oracle(secs, emitted, ffs=None):
         grefs = {node_id(m.block_to, t): node_id(m.block_from, f) for t, f in m.references.items()}
         if wrefs != grefs:
             errs.append(tag + 'references %r, declared %r' % (grefs, wrefs))
-        for a, b in s.edges['to']:
-            pair = {nid('to', a), nid('to', b)}
-            if not any({node_id(m.block_to, x), node_id(m.block_to, y)} == pair for x, y in m.block_to.edges):
-                errs.append(tag + 'declared edge %r missing in block_to' % (pair,))
-        for a, b in s.edges['from']:
-            pair = {nid('from', a), nid('from', b)}
-            if pair <= set(want) and not any({node_id(m.block_from, x), node_id(m.block_from, y)} == pair
-                                             for x, y in m.block_from.edges):
-                errs.append(tag + 'declared edge %r missing in block_from' % (pair,))
+        for d, g in (('to', m.block_to), ('from', m.block_from)):
+            declared = {}        # unordered pair -> attributes written for it, later lines update earlier ones
+            for a, b, eattr in s.edges[d]:
+                declared.setdefault(frozenset((nid(d, a), nid(d, b))), {}).update(eattr)
+            for pair, eattr in declared.items():
+                if d == 'from' and not pair <= set(want):
+                    continue
+                found = [g.edges[x, y] for x, y in g.edges if frozenset((node_id(g, x), node_id(g, y))) == pair]
+                if not found:
+                    errs.append(tag + 'declared edge %r missing in block_%s' % (set(pair), d))
+                elif any(found[0].get(k, '<absent>') != v for k, v in eattr.items()):
+                    errs.append(tag + 'edge %r of block_%s has attributes %r, declared %r' % (set(pair), d, found[0], eattr))
         if ffs is None or s.empty:
             continue
         # the interactions and citations of the blocks the section names travel with them: block_to holds
@@ -790,6 +793,38 @@ CORPUS = [
 ]
 
 
+def _nofetch_check(emitted):
+    m = emitted[0]
+    errs = []
+    if list(m.names) != ['ALA']:
+        errs.append('names %r, declared ALA' % (m.names,))
+    got = [(a.get('resname'), a.get('atomname')) for _, a in m.block_from.nodes(data=True)]
+    if got != [('ALA', 'CA')]:
+        errs.append('block_from %r: "!X" must fetch no block, the two declared nodes are N and CA, only CA is mapped' % got)
+    if {(i, j): w for i, d in m.mapping.items() for j, w in d.items()} != {(1, 0): 1}:
+        errs.append('mapping %r, declared X:CA -> BB' % (m.mapping,))
+    return errs
+
+
+def _edge_attr_check(emitted):
+    m = emitted[0]
+    e = [(sorted((m.block_to.nodes[x]['atomname'], m.block_to.nodes[y]['atomname'])), dict(d))
+         for x, y, d in m.block_to.edges(data=True) if {m.block_to.nodes[x]['atomname'], m.block_to.nodes[y]['atomname']} == {'BB', 'SC1'}]
+    want = {'order': 2, 'kind': 'y', 'extra': [1]}
+    if len(e) != 1 or any(e[0][1].get(k) != v for k, v in want.items()):
+        return ['edge BB-SC1 of block_to %r, declared with attributes %r (second line updates the first)' % (e, want)]
+    return []
+
+
+# directed cases with a check of the content: (name, lines, check(emitted) -> errors)
+DIRECTED = [
+    ('nofetch-marker', _B + ['[ from blocks ]', '!X {"resname": "ALA"}', '[ from nodes ]', 'X:N', 'X:CA', '[ to blocks ]', 'ALA',
+                             '[ mapping ]', 'X:CA BB'], _nofetch_check),
+    ('edge-attributes', _B + _FT + ['[ to edges ]', 'BB SC1 {"order": 2, "kind": "x"}', 'SC1 BB {"kind": "y", "extra": [1]}',
+                                    '[ mapping ]', 'CA BB'], _edge_attr_check),
+]
+
+
 def run_corpus(chk, ask):
     from vermouth.ffinput import read_ff
     ffs = toy_ffs()
@@ -802,6 +837,15 @@ def run_corpus(chk, ask):
         errs = [] if got == want else ['corpus case %s: expected %r, the reader gives %r (%s)' % (name, want, got, exc)]
         chk.count('mapfile_corpus')
         chk.case('mapping-corpus-' + name, {'lines': ls, 'req': 'mapping read <toy library + EMP> <lines>'}, im, mo, errs, True)
+    reqs = [line('mapping', 'read', lib, ls) for _, ls, _ in DIRECTED]
+    for (name, ls, check), ln, mo in zip(DIRECTED, reqs, ask(reqs)):
+        im, emitted, _keys, exc = run_real(chk, ls, ffs)
+        if emitted is None or len(emitted) != 1:
+            errs = ['directed case %s: one mapping declared, the reader gives %r (%s)' % (name, emitted and len(emitted), exc)]
+        else:
+            errs = check(emitted)
+        chk.count('mapfile_directed')
+        chk.case('mapping-directed-' + name, {'lines': ls, 'req': 'mapping read <toy library + EMP> <lines>'}, im, mo, errs, True)
 
 
 def count_kind_headers(lines):
